@@ -320,7 +320,8 @@ def backward_pattern_program(rng, pid):
     vars_ = [{"n": n, "t": "int"} for n in ("x", "y", "z")]
     le = lambda k, t=(): {"k": k, "t": [list(u) for u in t]}
     pre = [{"op": "assume", "c": {"e": le(-2, [(1, o)]), "r": "le"}}, {"op": "assume", "c": {"e": le(-2, [(-1, o)]), "r": "le"}}]
-    k = rng.choice(["sel_then", "sel_else", "sel_else", "negself", "subself", "addk", "mulk", "divk", "lin", "lin2", "havoc"])
+    k = rng.choice(["sel_then", "sel_else", "sel_else", "negself", "subself", "addk", "mulk", "divk", "lin", "lin2", "havoc", "remself", "remself",
+                    "mul0self"])
     c = rng.randint(-1, 1)
     if k in ("sel_then", "sel_else"):
         big, small = le(rng.choice([3, 4, -3])), le(rng.randint(-1, 1), [(1, o)]) if rng.random() < 0.5 else le(rng.randint(-1, 1))
@@ -336,6 +337,11 @@ def backward_pattern_program(rng, pid):
         dfn = [{"op": "arith", "f": "mul", "x": v, "y": o, "zk": 1, "z": rng.choice([-2, -1, 2, 3])}]
     elif k == "divk":
         dfn = [{"op": "arith", "f": "sdiv", "x": v, "y": o, "zk": 1, "z": rng.choice([-2, 2, 3])}]
+    elif k == "remself":    # v := o + c; v := v % m  (a non-invertible SELF-update)
+        dfn = [{"op": "assign", "x": v, "e": le(rng.randint(0, 3), [(1, o)])},
+               {"op": "arith", "f": rng.choice(["srem", "urem", "udiv"]), "x": v, "y": v, "zk": 1, "z": rng.choice([2, 3])}]
+    elif k == "mul0self":
+        dfn = [{"op": "assign", "x": v, "e": le(rng.randint(-1, 1), [(1, o)])}, {"op": "arith", "f": "mul", "x": v, "y": v, "zk": 1, "z": 0}]
     elif k == "lin":
         dfn = [{"op": "assign", "x": v, "e": le(rng.randint(-1, 1), [(rng.choice([1, -1, 2]), o)])}]
     elif k == "lin2":
